@@ -1106,15 +1106,20 @@ archive_write_pax_header(struct archive_write *a,
 	if (archive_entry_filetype(entry_main) == AE_IFBLK
 	    || archive_entry_filetype(entry_main) == AE_IFCHR) {
 		/*
-		 * If rdevmajor is too large, add 'SCHILY.devmajor' to
-		 * extended attributes.
+		 * If rdevmajor or rdevminor is too large, add
+		 * 'SCHILY.devmajor' and 'SCHILY.devminor' to extended
+		 * attributes.  Always both: a reader that finds one of
+		 * them takes the device number from the extended
+		 * attributes and no longer looks at the ustar fields.
 		 */
 		int rdevmajor, rdevminor;
 		rdevmajor = archive_entry_rdevmajor(entry_main);
 		rdevminor = archive_entry_rdevminor(entry_main);
-		if (rdevmajor >= (1 << 18)) {
+		if (rdevmajor >= (1 << 18) || rdevminor >= (1 << 18)) {
 			add_pax_attr_int(&(pax->pax_header), "SCHILY.devmajor",
 			    rdevmajor);
+			add_pax_attr_int(&(pax->pax_header), "SCHILY.devminor",
+			    rdevminor);
 			/*
 			 * Non-strict formatting below means we don't
 			 * have to truncate here.  Not truncating improves
@@ -1126,17 +1131,6 @@ archive_write_pax_header(struct archive_write *a,
 			 */
 			/* archive_entry_set_rdevmajor(entry_main,
 			   rdevmajor & ((1 << 18) - 1)); */
-			need_extension = 1;
-		}
-
-		/*
-		 * If devminor is too large, add 'SCHILY.devminor' to
-		 * extended attributes.
-		 */
-		if (rdevminor >= (1 << 18)) {
-			add_pax_attr_int(&(pax->pax_header), "SCHILY.devminor",
-			    rdevminor);
-			/* Truncation is not necessary here, either. */
 			/* archive_entry_set_rdevminor(entry_main,
 			   rdevminor & ((1 << 18) - 1)); */
 			need_extension = 1;
